@@ -174,6 +174,15 @@ def h_statements(ctx, cls, n):
     ctx.check("statements lists every wrapper's statement once", len(got) == len(want))
     if len(got) == len(want):
         ctx.check("statements are the very objects at the full path, in document order", all([g is w for g, w in zip(got, want)]))
+    # the instance changes (one more wrapper is appended): the shortcut must follow the full path again
+    k = ctx.choice("k_extra", list(range(len(kinds))))
+    w = wrapper(kinds[k], True)
+    inst.append(w)
+    s = w.__dict__.get(kinds[k][1])
+    if s is not None:
+        want = want + [s]
+    got = inst.statements
+    ctx.check("after the instance changed the shortcut still agrees with the full path", len(got) == len(want) and all([g is x for g, x in zip(got, want)]))
 
 
 def h_ofx(ctx, rs):
@@ -207,6 +216,26 @@ def h_ofx(ctx, rs):
     ctx.check("OFX.statements lists every statement once", len(got) == len(want))
     if len(got) == len(want):
         ctx.check("OFX.statements returns the objects at the full path in document order", all([g is w for g, w in zip(got, want)]))
+    # one more statement wrapper is appended to a present message set; repr() in between (it reads the shortcuts)
+    repr(inst)
+    for nm in names:
+        ms = inst.__dict__.get(nm)
+        if ms is not None and not nm.startswith("seclist"):
+            kinds = MSGSETS[type(ms).__name__]
+            w = wrapper(kinds[0], True)
+            ms.append(w)
+            # recompute the expected list by the full path
+            want = []
+            for nm2 in (["bankmsgsrqv1", "creditcardmsgsrqv1", "invstmtmsgsrqv1", "bankmsgsrsv1", "creditcardmsgsrsv1", "invstmtmsgsrsv1"]):
+                m2 = inst.__dict__.get(nm2)
+                if m2 is not None:
+                    for w2 in list.__iter__(m2):
+                        for kind in MSGSETS[type(m2).__name__]:
+                            if type(w2).__name__ == kind[0] and w2.__dict__.get(kind[1]) is not None:
+                                want.append(w2.__dict__.get(kind[1]))
+            got2 = inst.statements
+            ctx.check("OFX.statements follows the full path after the tree changed", len(got2) == len(want) and all([g is x for g, x in zip(got2, want)]))
+            break
     so = inst.signon
     msgs = inst.__dict__.get("signonmsgsrsv1" if rs else "signonmsgsrqv1")
     ctx.check("OFX.signon is the SONRQ/SONRS at the full path", so is msgs.__dict__.get("sonrs" if rs else "sonrq"))
